@@ -162,7 +162,8 @@ def check(rep, F, tier, replay=None):
             if a_ and a_["kind"] == "struct" and len(a_["variants"][0]["fields"]) == 1 and derived_ser:
                 inner = a_["variants"][0]["fields"][0]["ty"]
                 cd0 = impl_callees(F, de[t])
-                if any(c.endswith("Deserialize<'de> for %s>::deserialize" % inner) or (c.startswith("<%s as " % inner) and "Deserialize" in c and c.endswith("::deserialize")) for c in cd0):
+                head = inner.split("<", 1)[0]
+                if any(re.search(r"Deserialize<'de> for %s(<[^>]*>)?>::deserialize$" % re.escape(head), c) or (c.startswith("<%s" % head) and "Deserialize" in c and c.endswith("::deserialize")) for c in cd0):
                     continue
         if t not in ser or t not in de:
             rep.violation("PAIR-serde", st, "%s has a hand-written serde::%s but no hand-written %s" % (st, "Serialize" if t in ser else "Deserialize", "Deserialize" if t in ser else "Serialize"), {})
